@@ -308,15 +308,15 @@ def main(prop, tier='quick', seed=None, replay=None):
     hyg = hygiene()
     thm = check_theorems(mod.THEOREM_FILE) if built else {'file': mod.THEOREM_FILE, 'theorems': [], 'examples': [], 'ok': False, 'axioms': [], 'closed': 0, 'n_print_assumptions': 0, 'tail': build_out}
     # properties with a translator: the model generated from /repo's CURRENT source, and the proof that it is the hand-written model, re-checked on this run
-    gen = None
+    genmodel = None
     if built and hasattr(mod, 'generated_model'):
         try:
-            gen = mod.generated_model()
+            genmodel = mod.generated_model()
         except Exception as e:
-            gen = {'ok': False, 'what': 'translator crashed', 'tail': '%s: %s' % (type(e).__name__, e)}
-        if not gen['ok'] and thm['ok']:
+            genmodel = {'ok': False, 'what': 'translator crashed', 'tail': '%s: %s' % (type(e).__name__, e)}
+        if not genmodel['ok'] and thm['ok']:
             thm['ok'] = False
-            thm['tail'] = 'model generated from the source (%s): %s' % (gen['what'], gen['tail'][-600:])
+            thm['tail'] = 'model generated from the source (%s): %s' % (genmodel['what'], genmodel['tail'][-600:])
     # thorough tier: the independent checker re-checks the compiled theorem file and everything it depends on (runs beside the streams)
     chk_proc = None; chk = None
     if built and tier == 'thorough' and not replay:
@@ -469,8 +469,8 @@ def main(prop, tier='quick', seed=None, replay=None):
           'hand-written Gallina model (coq/Model/*.v) tied to /repo by the correspondence streams of this run (differential testing, not proof)',
           'Python harness: generators, implementation runner, Coq case printer, independent oracle (harness/props/%s.py, harness/core.py)' % prop,
           'CPython, numpy and libm as the semantics of the implementation; binary64 rounding is modelled (exact/float instances), not verified']
-    if gen is not None:
-        tb.append('translator harness/py2coq.py (Python ast -> Gallina, fail-closed, integers only): %s; %s' % (gen.get('scope', ''), 'generated model proved equal to the hand-written one on this run (%s)' % gen.get('proof', '') if gen['ok'] else 'NOT CHECKED on this run: ' + gen['what']))
+    if genmodel is not None:
+        tb.append('translator harness/py2coq.py (Python ast -> Gallina, fail-closed, integers only): %s; %s' % (genmodel.get('scope', ''), 'generated model proved equal to the hand-written one on this run (%s)' % genmodel.get('proof', '') if genmodel['ok'] else 'NOT CHECKED on this run: ' + genmodel['what']))
     ev = {'property_id': prop, 'tier': tier, 'seed': seed, 'level': 'proof',
           'coverage': {'obligations': obligations, 'discharged': discharged,
                        'checker_cmd': 'make -C /verif/coq && coqc -Q /verif/coq TL /verif/coq/%s' % mod.THEOREM_FILE,
@@ -482,7 +482,7 @@ def main(prop, tier='quick', seed=None, replay=None):
                        'samples': samples[:6], 'streams': streams_ev,
                        'model_disagreements': len(disagreements), 'oracle_failures_outside_known_findings': len(new_fail),
                        'known_finding_hits': {k: len(v) for k, v in known_hit.items()},
-                       'hygiene_hits': hyg[:5], 'exhaustive': False, 'generated_model': gen if gen is not None else 'none for this property (hand-written model + correspondence only)',
+                       'hygiene_hits': hyg[:5], 'exhaustive': False, 'generated_model': genmodel if genmodel is not None else 'none for this property (hand-written model + correspondence only)',
                        'coqchk': ({'ok': chk['ok'], 'axioms_of_all_loaded_libraries': chk['axioms']} if chk else 'not run in this tier (thorough only)')},
           'assumptions': list(getattr(mod, 'NOTES', [])) + ['the correspondence is sampling: it never stands in for a theorem'],
           'wall_s': round(time.time() - t0, 2), 'violations': 0 if verdict is None else 1}
